@@ -1,7 +1,7 @@
 import json, os, shutil, vlib
 from props import gocommon
 
-THEOREMS = ["Folang.Sem.lower_correct", "Folang.Sem.sim", "Folang.Sem.gevalN_mono", "Folang.Sem.exampleProg_lowered",
+THEOREMS = ["Folang.Sem.lower_correct", "Folang.Sem.lower_correct_output", "Folang.Sem.runProg_deterministic", "Folang.Sem.grunProg_deterministic", "Folang.Sem.evalN_mono", "Folang.Sem.wfProgB_iff", "Folang.Sem.sim", "Folang.Sem.gevalN_mono", "Folang.Sem.exampleProg_lowered",
             "Folang.Props.C17.tiny_is_climb", "Folang.Props.C17.tiny_eq_group", "Folang.Props.C17.group_congr",
             "Folang.Props.C17.tables_agree", "Folang.Props.C17.tiny_agrees_with_fc", "Folang.Props.C17.tiny_table_is_prefix",
             "Folang.Props.C17.fact_tinyTable", "Folang.Props.C17.fact_tinyPrecedenceUses", "Folang.Props.C17.fact_tinyMinPrec",
